@@ -10,6 +10,7 @@ Monitors on the real LuaFormatterWriter (Lua.to_lines(writer_cls=LuaFormatterWri
  (4) line shape: no line ends in whitespace, never two blank lines in a row between lines, no blank line at the end.
 """
 from .. import progen, layout, reflex
+from .. import ambient
 
 LEVEL = 'exploration'
 RULE = ('generated dialect programs laid out one statement per line (block closers on their own lines) with random leading whitespace '
@@ -69,7 +70,7 @@ def fmt_cli(src, width, workdir, overwrite=False):
         os.remove(pf)
     with open(p1, 'wb') as fh:
         fh.write(rc.write_p8(regions, src, version=8))
-    rcode = tool.main(['-q', 'luafmt'] + (['--overwrite'] if overwrite else []) + ['--indentwidth', str(width), p1])
+    rcode = tool.main([ambient.vflag(), 'luafmt'] + (['--overwrite'] if overwrite else []) + ['--indentwidth', str(width), p1])
     if rcode:
         raise RuntimeError('p8tool luafmt returned %r' % rcode)
     with open(p1 if overwrite else pf, 'rb') as fh:
